@@ -80,7 +80,7 @@ def _scores(tier):
     out.append(("pickup_six_eight", lambda: G.build_part("P1", 2, ts=((0, 6, 8),), notes=[("u", 0, 1, "G", None, 4, 1, 1), ("a", 1, 3, "C", None, 5, 1, 1), ("b", 1, 3, "E", None, 4, 1, 1), ("c", 4, 2, "D", None, 5, 1, 1),
                                                                                         ("d", 6, 1, "F", 1, 4, 1, 1), ("e", 7, 6, "G", None, 4, 1, 1), ("f", 7, 3, "B", None, 3, 2, 1), ("g", 10, 3, "C", None, 4, 2, 1)],
                                                          measures=[(0, 1), (1, 7), (7, 13)])))
-    if tier == "thorough":
+    if True:
         out.append(("with_grace", lambda: G.build_part("P1", 4, notes=[("n0", 0, 4, "C", None, 4, 1, 1), ("n1", 4, 4, "D", None, 4, 1, 1), ("n2", 8, 8, "E", None, 4, 1, 1)], graces=[("g", 4, "B", None, 3, 1, 1, "n1")])))
     return out
 
@@ -175,8 +175,10 @@ def bounded(b):
                 want_ids = sorted([a["score_id"] for a in al if a["label"] == "match" and a["score_id"] in byid], key=lambda s: (float(byid[s]["onset_div"]), int(byid[s]["pitch"])))
                 b.case("codec/matched_table_pairs_the_matches_present_on_both_sides_in_score_order", list(sids) == want_ids and keys == sorted(keys), case,
                        "table ids %r, expected %r" % (list(sids)[:8], want_ids[:8]))
-            ok, maps = b.guard("codec/time_maps_no_exception", case, lambda: pc.get_time_maps_from_alignment(ppart, part, al))
-            if ok:
+            for rm_orn in (True, False):
+              case = {"score": sname, "seed": seed, "remove_ornaments": rm_orn}
+              ok, maps = b.guard("codec/time_maps_no_exception", case, lambda: pc.get_time_maps_from_alignment(ppart, part, al, remove_ornaments=rm_orn))
+              if ok:
                 ptime_to_stime, stime_to_ptime = maps
                 na = part.note_array()
                 byid = {str(r["id"]): r for r in na}
@@ -184,6 +186,8 @@ def bounded(b):
                 groups = {}
                 for a in al:
                     if a["label"] == "match" and a["score_id"] in byid:
+                        if rm_orn and float(byid[a["score_id"]]["duration_beat"]) == 0:
+                            continue  # grace notes (no score duration) are left out of the maps on request (the default)
                         groups.setdefault(float(byid[a["score_id"]]["onset_beat"]), []).append(orig[a["performance_id"]]["note_on"])
                 good, what = True, ""
                 for sb, pons in groups.items():
